@@ -372,7 +372,7 @@ func feasibleKinds(n *Node, v *view, a int) []string {
 		}
 	}
 	it.Close()
-	dels, _ := app.StakingKeeper.GetDelegatorDelegations(ctx, me, 1)
+	dels, _ := app.StakingKeeper.GetDelegatorDelegations(ctx, me, 10)
 	_, pref := app.ValidatorSetPreferenceKeeper.GetValidatorSetPreference(ctx, me.String())
 	hasCL, hasShares := false, false
 	for _, p := range v.pools {
@@ -387,7 +387,7 @@ func feasibleKinds(n *Node, v *view, a int) []string {
 		"beginUnlock": len(locks) > 0, "beginUnlockAll": len(locks) > 0, "extendLock": len(locks) > 0,
 		"sfDelegate": sfCand > 0, "sfUndelegate": sfLocks > 0, "sfUnbond": sfLocks > 0,
 		"tfMint": admin, "tfBurn": admin, "tfForceTransfer": admin, "tfChangeAdmin": admin, "tfMetadata": admin,
-		"undelegate": len(dels) > 0, "withdrawReward": len(dels) > 0, "valsetDelegate": pref, "valsetWithdraw": pref,
+		"undelegate": len(dels) > 0, "withdrawReward": len(dels) > 0, "valsetDelegate": pref || len(dels) >= 2, "valsetWithdraw": pref || len(dels) >= 1,
 		"govVote": len(v.props) > 0, "exitPool": hasShares, "addToGauge": len(v.gauges) > 0,
 	}
 	// kinds whose precondition is a state that few histories reach (a delegated lock, a validator-set preference, a
@@ -844,14 +844,10 @@ func GenMsg(rt *rapid.T, n *Node, v *view, a int) (kind string, msg sdk.Msg, ok 
 		}
 		return kind, valsettypes.NewMsgSetValidatorSetPreference(me, prefs), true
 	case "valsetDelegate":
-		if _, found := app.ValidatorSetPreferenceKeeper.GetValidatorSetPreference(ctx, me.String()); !found {
-			return kind, nil, false
-		}
-		return kind, valsettypes.NewMsgDelegateToValidatorSet(me, coin(Bond, amount(rt, "amt"))), true
+		// with a stored preference, or - without one - over the delegator's existing staking delegations (the module then
+		// derives the weights from them); amounts that do not split evenly leave a remainder for the last entry
+		return kind, valsettypes.NewMsgDelegateToValidatorSet(me, coin(Bond, amount(rt, "amt")+int64(rapid.IntRange(0, 9).Draw(rt, "odd")))), true
 	case "valsetWithdraw":
-		if _, found := app.ValidatorSetPreferenceKeeper.GetValidatorSetPreference(ctx, me.String()); !found {
-			return kind, nil, false
-		}
 		return kind, valsettypes.NewMsgWithdrawDelegationRewards(me), true
 	case "govSubmit":
 		m, err := govv1.NewMsgSubmitProposal(nil, sdk.NewCoins(coin(Bond, 10_000_000)), me.String(), "m", "t", "s", rapid.Bool().Draw(rt, "expedited"))
